@@ -162,10 +162,25 @@ func runC02(e *Engine, r *Report, tier string) {
 		}
 		if ph, ok := sum.(*ssa.Phi); ok {
 			zero, adds, other := false, 0, 0
-			for _, ed := range ph.Edges {
-				if ed == ssa.Value(ph) {
-					continue
+			// the accumulator's web of phis (loop header, latch after an if/else with a `continue`): its non-phi inputs
+			inWeb := map[ssa.Value]bool{}
+			var leaves []ssa.Value
+			var flat func(p *ssa.Phi)
+			flat = func(p *ssa.Phi) {
+				if inWeb[p] {
+					return
 				}
+				inWeb[p] = true
+				for _, ed := range p.Edges {
+					if q, ok := ed.(*ssa.Phi); ok {
+						flat(q)
+					} else {
+						leaves = append(leaves, ed)
+					}
+				}
+			}
+			flat(ph)
+			for _, ed := range leaves {
 				if c, ok := ed.(*ssa.Call); ok {
 					if strings.HasPrefix(callName(c), "NewInt") || callName(c) == "ZeroInt" {
 						if len(c.Common().Args) == 0 {
@@ -179,7 +194,7 @@ func runC02(e *Engine, r *Report, tier string) {
 					}
 					if callName(c) == "Add" {
 						a := callArgs(c)
-						if len(a) == 2 && a[0] == ssa.Value(ph) {
+						if len(a) == 2 && inWeb[a[0]] {
 							// a[1] = GetPower(oracle) with oracle read from 0x12 and found
 							if pc, ok := a[1].(*ssa.Call); ok && callName(pc) == "GetPower" {
 								recv := callArgs(pc)[0]
